@@ -166,5 +166,45 @@ func (k *c11) judge(part date.Partition, s, e cal.Day, iv cal.Interval, exp []ca
 			return "align", fmt.Sprintf("Align(%s) = %s, expected %s", d, c11Day(a), want)
 		}
 	}
+	// Align must be a function of the date alone: a second mapper is asked in an
+	// order no report would use (latest date first, then sparse ascending jumps
+	// that skip whole periods, then descending), and must answer the same.
+	al2 := part.Align()
+	check := func(d cal.Day) (string, string) {
+		if !judgeShape && d <= e {
+			return "", ""
+		}
+		a := al2(k.tm(d))
+		want, ok := cal.Align(exp, d)
+		if !judgeShape {
+			ok = false
+		}
+		*aligns++
+		switch {
+		case !ok && !a.IsZero():
+			return "align-order-dependent", fmt.Sprintf("Align(%s) = %s when asked out of order, expected no column", d, c11Day(a))
+		case ok && a.IsZero():
+			return "align-order-dependent", fmt.Sprintf("Align(%s) = no column when asked out of order, expected %s", d, want)
+		case ok && c11Day(a) != want:
+			return "align-order-dependent", fmt.Sprintf("Align(%s) = %s when asked out of order, expected %s", d, c11Day(a), want)
+		}
+		return "", ""
+	}
+	if key, why := check(to); key != "" {
+		return key, why
+	}
+	if key, why := check(from); key != "" {
+		return key, why
+	}
+	for d := from; d <= to; d += 37 {
+		if key, why := check(d); key != "" {
+			return key, why
+		}
+	}
+	for d := to; d >= from; d -= 53 {
+		if key, why := check(d); key != "" {
+			return key, why
+		}
+	}
 	return "", ""
 }
